@@ -338,6 +338,11 @@ func (w h2Writer) CloseWrite() error {
 
 func (p proxyHandler) writeErrorResponse(rw http.ResponseWriter, req *http.Request, err error) {
 	res := maybeConnectErrorResponse(err)
+	if res != nil {
+		// The response was built for the transport's CONNECT request, answer the client's request.
+		res.Request = req
+		res.Proto, res.ProtoMajor, res.ProtoMinor = req.Proto, req.ProtoMajor, req.ProtoMinor
+	}
 	var challenge []string
 	if res == nil {
 		res = p.errorResponse(req, err)
